@@ -54,7 +54,7 @@ func init() {
 		k.PCall = 20
 		ec := gen.NewTG(t, k).Case()
 		c := &C20Case{Case: ec, Note: "clean"}
-		switch gen.Uniform(t, "variant", 6) {
+		switch gen.Uniform(t, "variant", 8) {
 		case 0: // warning-only: an unused variable
 			ec.Script.Vars = append(ec.Script.Vars, gen.VarDecl{Type: "number", Name: "unused_var"})
 			ec.Vars["unused_var"] = "1"
@@ -80,6 +80,22 @@ func init() {
 				&gen.Stmt{Kind: gen.StCall, Call: &gen.Call{Fn: "set_tx_meta", Args: []*gen.Expr{gen.Str("odda"), gen.Var("odda")}}},
 				&gen.Stmt{Kind: gen.StSend, Sent: gen.Var("oddm"), Src: &gen.Src{Kind: gen.SAcct, Addr: gen.Acct("world")}, Dst: &gen.Dst{Kind: gen.DAcct, Addr: gen.Acct("d")}})
 			c.Note = "odd-asset-text"
+		case 6: // an error message that contains a per cent sign (and other printf verbs)
+			bad := gen.Pick(t, "pct", []string{"50%", "10%d", "100%s", "%v%v", "5%!"})
+			ec.Script.Vars = append([]gen.VarDecl{{Type: "number", Name: "pct"}}, ec.Script.Vars...)
+			ec.Vars["pct"] = bad
+			ec.Script.Stmts = append(ec.Script.Stmts, &gen.Stmt{Kind: gen.StCall, Call: &gen.Call{Fn: "set_tx_meta", Args: []*gen.Expr{gen.Str("pct"), gen.Var("pct")}}})
+			c.Note = "percent-in-error"
+		case 7: // many errors (an exit status is taken modulo 256)
+			if gen.Chance(t, "many", 25) {
+				n := gen.Pick(t, "many.n", []int{255, 256, 257, 512})
+				var sb strings.Builder
+				for i := 0; i < n; i++ {
+					sb.WriteString("set_tx_meta(\"k\", $nosuch)\n")
+				}
+				c.Text = sb.String()
+				c.Note = "many-errors"
+			}
 		case 3: // multi-line layout (positions on several lines)
 			c.Text = gen.Print(ec.Script.Clone(), &gen.ListLayout{Seps: []string{" ", "\n", " ", "\n  ", " "}}).Text
 			c.Note = "multi-line"
